@@ -556,7 +556,7 @@ func main() {
 	case "search":
 		ns, ntil, tikvEvery = 200, 5, 5
 	}
-	w := lib.NewWriter(args, "C13", "c13", "From KB Require Import Model.C13Cases.", "c13_case", "c13_check", "c13_oracle", 5)
+	w := lib.NewWriter(args, "C13", "c13", "From KB Require Import Model.C13Cases Model.ReadValid.", "c13_case", "c13_check_valid", "c13_oracle", 5)
 
 	// corpus 3: 700 keys: the 300-entry batch cut in a single partition (300/300/100), in partitions of 250/450
 	// (border between two versions of /r/k0248... resp. on a version record) and 3/302/385/10 keys
@@ -697,6 +697,10 @@ func main() {
 	}
 	runStore(w, args, store{big: 200}, rnd.Fork(), "corpus/memkv-wrap-many-pieces", 4, []tilingSpec{many(65, 0), many(127, 0), many(130, 17), many(191, 0)}, quick)
 
+	// validity (the hypotheses of C13_oracle_sound) is evaluated per case by the shards: their check function is
+	// c13_check_valid = c13_check && c13_validb; an invalid case is a mismatch
+	w.Stats.Extra["invalid_cases"] = 0
+	w.Stats.Extra["validity_evaluated_by"] = "coqc on every shard: mismatches c13_check_valid cases = [] (Model/ReadValid.v, Proofs/ReadValid.v: C13_check_valid_sound)"
 	if err := w.Finish("one case = one store (write history over 4..9 prefix-related keys, or 620 keys for the batch cut) read under 1..6 partitionings of 1..5 pieces (borders: index record, version record, synthetic Enc(k,r), between keys; shuffled; or real TiKV regions); per partitioning and (range, revision): List, Count, ListByStream whole and per advertised pair, GetPartitions, unpartitioned List; distinct = SHA-256 of the Coq case; non-trivial = some engine answer had at least 2 pieces and the store has at least 4 records"); err != nil {
 		fmt.Fprintln(os.Stderr, err)
 		os.Exit(2)
